@@ -19,7 +19,7 @@ NOT_PROVED = ('binary64 overflow/underflow/NaN freedom upstream of the posterior
 ASSUMPTIONS = ['tiny = np.finfo(dtype).tiny read per case', 'RNG draws of the initializers are inputs (re-seeded)']
 
 RT64 = '0x1p-30'
-RT32 = '0x1p-17'
+RT32 = '0x1p-10'     # float32 inputs: the implementation subtracts the maximum in float32 (argument error ~1e-4 at |l| ~ 1e3)
 
 
 def _cols(rng, lead_shape, N, maxcols):
@@ -242,14 +242,13 @@ def eval_model(rp, rng=None):
         if name == 'cacgmm' and mask is not None:
             pk['source_activity_mask'] = mask
         aff = mm.predict(name, model, data, **pk)
-    except EXPLICIT as e:
-        # an explicit exception is an accepted outcome for degenerate input; on regular input it is not
-        if deg:
-            return None, None, None, '%s: %s' % (type(e).__name__, str(e)[:120]), False
-        return ('fit/predict raised %s on a regular input: %s' % (type(e).__name__, str(e)[:300]),
-                'model:raises:%s:%s' % (name, type(e).__name__), None, None, False)
     except Exception as e:
-        return ('fit/predict raised %s (not an explicit, documented exception): %s' % (type(e).__name__, str(e)[:300]),
+        # the property: 'a call either raises an explicit exception or returns such an array'.  Deliberate exceptions
+        # (assertions, sklearn's ill-defined-covariance ValueError, LinAlgError) are accepted outcomes; exceptions that
+        # escape from NumPy because shapes or types went wrong are not
+        if core.deliberate_exception(e):
+            return None, None, None, '%s: %s' % (type(e).__name__, str(e)[:120]), False
+        return ('fit/predict raised %s (not an explicit, deliberate exception): %s' % (type(e).__name__, str(e)[:300]),
                 'model:crash:%s:%s' % (tag, type(e).__name__), None, None, False)
     if any(data[k].tobytes() != before[k] for k in data):
         return 'caller array modified by fit/predict', 'model:mutates:%s' % name, None, None, False
